@@ -91,4 +91,12 @@ let eval (toks : ostring list) : ostring =
     let j = zz (i32 j) in
     let m = ZA.sub j (ZA.mul (ZA.fdiv j (ZA.of_int 7)) (ZA.of_int 7)) in ZA.to_string (ZA.succ m)
   | ["convert"; c1; j; c2] -> let _ = ccal_of c1 in let c2 = ccal_of c2 in date_s (date_of c2 (i32 j))
+  | ["month_q"; n] | ["weekday_q"; n] ->
+    let names = if List.hd toks = "month_q" then month_names_spec else weekday_names_spec in
+    (match enum_q_spec names (u32 n) with
+     | None -> raise Bad_case
+     | Some (((((a, b), num), num0), p), s) ->
+       let a = string_of_coq a and b = string_of_coq b in
+       Printf.sprintf "name=%s;short=%s;display=%s;alt=%s;number=%s;number0=%s;pred=%s;succ=%s"
+         (hex_of a) (hex_of b) (hex_of a) (hex_of b) (zs num) (zs num0) (opt zs p) (opt zs s))
   | _ -> raise Unsupported
